@@ -16,7 +16,7 @@ for D in seeded/C*-*; do
     C03-10|C09-10) X="C19";; C05-9) X="C10 C02";; C07-9) X="C08 C16";; C09-9) X="C02";; C16-9) X="C14";; C17-9) X="C14";;
     C17-10) X="C05 C14";; C20-9) X="C06";; C20-10) X="C05 C12";;
     C03-12|C07-12|C08-12|C16-12) X="C19";; C07-11) X="C15 C05";; C09-12) X="C06";; C16-11) X="C14";; C17-11) X="C11 C14";;
-    C01-12) X="C16";; *) X="";;
+    C01-12) X="C16";; C05-13) X="C16";; C10-13) X="C17";; C10-14) X="C19";; C14-14) X="C15";; *) X="";;
   esac
 
   R=$(tools/try_mutant.sh /verif/$D/patch.diff $P $X 2>&1)
